@@ -60,7 +60,20 @@ def check(pid, tier):
 
     # 4. correspondence: hand model (Lean driver) vs implementation, same inputs
     C.import_prysm()
-    mod.correspondence(ctx)
+    try:
+        mod.correspondence(ctx)
+    except C.ToolError:
+        raise
+    except Exception as ex:
+        # safety net: an exception that escapes from inside the implementation under test (innermost frame in
+        # REPO) is a behavioural difference, not a tool failure; anything else is a harness bug (exit 2)
+        tb = traceback.extract_tb(ex.__traceback__)
+        if tb and os.path.abspath(tb[-1].filename).startswith(C.REPO + os.sep):
+            where = f'{os.path.relpath(tb[-1].filename, C.REPO)}:{tb[-1].lineno}'
+            ctx.disagree('uncaught-exception', {'where': where}, f'{type(ex).__name__}: {ex}', 'model returns a value')
+            ctx.notes.append('correspondence aborted by an exception raised inside the implementation at ' + where)
+        else:
+            raise
     if ctx.disagreements:
         red.append({'kind': 'correspondence', 'count': len(ctx.disagreements), 'first': ctx.disagreements[:5]})
     if ctx.pred_failures:
